@@ -1,4 +1,4 @@
-import RTV.Lemmas.TimexEval
+import RTV.Lemmas.TimexEval2
 /-!
 # C15 — TIMEX resolution and constraint solving only return correct, valid values
 
@@ -511,4 +511,81 @@ theorem evaluate_timerange_stage_sound (t : Timex) (ks : List TimeRange) (out : 
     ∀ s ∈ out, ∃ k ∈ ks, ∃ tm ms, t.time = some tm ∧ msOf tm.hour tm.minute tm.second = .ok ms ∧
       k.s ≤ ms ∧ ms < k.e ∧ formatT t = .ok s := resolveTime_sound t ks out h
 
-end RTV.Timex
+/-- `genCfg` is a configuration the grammar lemmas apply to (same statement as `genCfg_ok` of C14) -/
+theorem genCfg_ok' : CfgOK genCfg := by
+  constructor <;> decide
+
+/-! ## `evaluate_sound`, end to end, for every candidate family and both kinds of constraints -/
+
+/-- the hypotheses of `evaluate_sound`: every candidate is a weekday / month-day / time-of-day TIMEX (each of the
+first two with or without a time of day); `daterange_from_timex` of the constraints with a date-range type gives
+`dranges` (at least one), `timerange_from_timex` of those with a time-range type gives `tranges` (possibly none);
+times of day that occur in candidates and constraints are what the patterns produce (three `int`s below 100). -/
+structure EvalHyp (cands constraints : List Str) (dranges : List DateRange) (tranges : List TimeRange) : Prop where
+  cand : ∀ c ∈ cands, CandKind (parse genCfg c)
+  candClock : ∀ c ∈ cands, ∀ tm, (parse genCfg c).time = some tm → ClockT tm
+  dr : ((constraints.map (parse genCfg)).filter fun t => (infer t).daterange).mapM daterangeFromTimex = .ok dranges
+  dne : dranges ≠ []
+  tr : ((constraints.map (parse genCfg)).filter fun t => (infer t).timerange).mapM (timerangeFromTimex genCfg) = .ok tranges
+  conClock : ∀ t ∈ constraints.map (parse genCfg), (infer t).time = true → ClockT (timeFromTimex t)
+
+/-- C15 **evaluate_sound** — for ANY list of candidates of the families weekday, month-day, time of day,
+weekday + time, month-day + time and any constraints with at least one date range (and any number of time ranges,
+times, …) satisfying `EvalHyp`, every TIMEX string `s` that `evaluate` returns
+* is **definite**: `Timex(s)` is exactly the date `d` (a valid calendar date) with an optional time `tmo`;
+* is an **instance of a candidate** `c`: same weekday / same month and day, and `c`'s own time if it has one;
+* lies inside at least one **supplied** date range `r0`;
+* and, when time ranges are supplied, has a time of day inside at least one **supplied** time range `tr0`.
+(Stated against what `is_overlapping` / `collapse_overlapping` really compute: collapsing only intersects.) -/
+theorem evaluate_sound (cands constraints : List Str) (dranges : List DateRange) (tranges : List TimeRange)
+    (hyp : EvalHyp cands constraints dranges tranges) (fuel : Nat) (out : List Str)
+    (hout : evaluate genCfg fuel cands constraints = .ok out) :
+    ∀ s ∈ out, ∃ c ∈ cands, ∃ (d : Date) (tmo : Option Time), ∃ r0 ∈ dranges,
+      d.valid = true ∧ s = isoDateStr d ++ fmtTime tmo ∧ parse genCfg s = dateTimex d tmo ∧
+      r0.s ≤ d.ord ∧ d.ord < r0.e ∧ Instance (parse genCfg c) d tmo ∧
+      (tranges ≠ [] → ∃ tm ms, ∃ tr0 ∈ tranges, tmo = some tm ∧ msOf tm.hour tm.minute tm.second = .ok ms ∧
+        tr0.s ≤ ms ∧ ms < tr0.e) := by
+  unfold evaluate at hout
+  dsimp only at hout
+  rw [resolveDurations_eq, resolveDurations_nodur genCfg _ cands [] (fun c hc => candKind_nodur _ (hyp.cand c hc))] at hout
+  simp only [List.nil_append, bind, Except.bind] at hout
+  cases hb : resolveByDateRangeConstraints genCfg fuel cands (constraints.map (parse genCfg)) with
+  | error e => simp [hb] at hout
+  | ok b =>
+    simp only [hb] at hout
+    cases hc : resolveByTimeConstraints genCfg b (constraints.map (parse genCfg)) with
+    | error e => simp [hc] at hout
+    | ok c3 =>
+      simp only [hc] at hout
+      -- stage 2
+      have h2 := dateStage_sound genCfg fuel cands _ b dranges hyp.cand hyp.dr hyp.dne hb
+      have hbd : ∀ s ∈ b, ∃ d tmo, Desc s d tmo := by
+        intro s hs
+        obtain ⟨c, hcm, d, r0, _, hv, _, _, _, hstr⟩ := h2 s hs
+        exact ⟨d, (parse genCfg c).time, hv, hyp.candClock c hcm, hstr⟩
+      -- stage 3
+      have h3 := timeStage_sound genCfg genCfg_ok' b _ c3 hbd hyp.conClock hc
+      have hcd : ∀ s ∈ c3, ∃ d tmo, Desc s d tmo := by
+        intro s hs
+        obtain ⟨s0, _, d, tmo, tmo', _, hd', _⟩ := h3 s hs
+        exact ⟨d, tmo', hd'⟩
+      -- stage 4
+      have h4 := timerangeStage_sound genCfg genCfg_ok' fuel c3 _ out tranges hcd hyp.tr hout
+      intro s hs
+      obtain ⟨hs3, htr⟩ := h4 s hs
+      obtain ⟨s0, hs0, d, tmo, tmo', hd0, hd', hkeep⟩ := h3 s hs3
+      obtain ⟨c, hcm, d2, r0, hr0, hv2, hr1, hr2, hinst, hstr⟩ := h2 s0 hs0
+      -- the two descriptions of s0 agree after parsing
+      have hp0 : parse genCfg s0 = dateTimex d tmo := by rw [hd0.2.2]; exact reparse genCfg genCfg_ok' d hd0.1 tmo hd0.2.1
+      have hp0' : parse genCfg s0 = dateTimex d2 (parse genCfg c).time := by
+        rw [hstr]; exact reparse genCfg genCfg_ok' d2 hv2 _ (hyp.candClock c hcm)
+      have heq : dateTimex d tmo = dateTimex d2 (parse genCfg c).time := by rw [← hp0, hp0']
+      have hdd := dateTimex_inj _ _ _ _ heq
+      obtain ⟨rfl, rfl⟩ := hdd
+      have hps : parse genCfg s = dateTimex d tmo' := by rw [hd'.2.2]; exact reparse genCfg genCfg_ok' d hd'.1 tmo' hd'.2.1
+      refine ⟨c, hcm, d, tmo', r0, hr0, hd'.1, hd'.2.2, hps, hr1, hr2, ⟨hinst.1, hinst.2.1, fun tm htm => hkeep tm htm⟩, ?_⟩
+      intro hne
+      obtain ⟨tm, ms, tr0, htr0, htm, hms, h1, h2'⟩ := htr hne
+      rw [hps] at htm
+      exact ⟨tm, ms, tr0, htr0, by simpa [dateTimex] using htm, hms, h1, h2'⟩
+
